@@ -96,7 +96,7 @@ func loadSyntax(dir string) ([]*packages.Package, error) {
 		}
 		env = append(env, e)
 	}
-	env = append(env, "GOWORK=off", "GOFLAGS=-mod=mod", "GOPROXY=off", "GOSUMDB=off", "GOTOOLCHAIN=local")
+	env = append(env, "GOWORK=off", "GOFLAGS=-mod=mod -trimpath", "GOPROXY=off", "GOSUMDB=off", "GOTOOLCHAIN=local")
 	cfg := &packages.Config{Mode: packages.LoadSyntax, Dir: dir, Tests: false, Env: env}
 	pkgs, err := packages.Load(cfg, "./...")
 	if err != nil {
